@@ -281,6 +281,7 @@ func describeGen(g *ngapgen.Gen) []string {
 // "whose fields satisfy the constraints of TS 38.413" in this protocol version; the library may refuse it, but when it
 // does encode it the bytes must still be the X.691 encoding.
 func compareEncodings(o *fw.Outcome, val any, tag, what string, outOfRoot bool) (ref []byte) {
+	fw.Beat()
 	var lib []byte
 	var lerr error
 	func() {
